@@ -16,7 +16,7 @@ m = {
     'files_changed': a.get('files_changed', []),
     'written_by': 'independent sub-agent given only the property record (plus a one-line hint which anchor of it to look at first) and a scratch worktree of /repo (HEAD 8a2eca9)',
     'confirmed_by_framework_author': {
-        'worktree': f'/tmp/wt/{sid[:3]} (scratch git worktree of /repo, removed afterwards)',
+        'worktree': f'/tmp/wt/{sid} (scratch git worktree of /repo, removed afterwards)',
         'commands': cmds,
         'demo_on_clean_tree': clean, 'demo_with_change': mut, 'existing_suite_with_change': suite,
     },
